@@ -924,7 +924,7 @@ impl Planner {
     fn plan_filter(&self, filter: &FilterOp) -> Result<(Box<dyn Operator>, Vec<String>)> {
         // Check zone maps for simple property predicates before scanning
         // If zone map says "definitely no matches", we can short-circuit
-        if let Some(false) = self.check_zone_map_for_predicate(&filter.predicate) {
+        if let Some(false) = self.check_zone_map_for_predicate(&filter.predicate, &filter.input) {
             // Zone map says no matches possible - return empty result
             let (_, columns) = self.plan_operator(&filter.input)?;
             let schema = self.derive_schema_from_columns(&columns);
@@ -971,7 +971,11 @@ impl Planner {
     /// - `Some(false)` if zone map proves no matches possible (can skip)
     /// - `Some(true)` if zone map says matches might exist
     /// - `None` if zone map check not applicable
-    fn check_zone_map_for_predicate(&self, predicate: &LogicalExpression) -> Option<bool> {
+    fn check_zone_map_for_predicate(
+        &self,
+        predicate: &LogicalExpression,
+        input: &LogicalOperator,
+    ) -> Option<bool> {
         use grafeo_core::graph::lpg::CompareOp;
 
         match predicate {
@@ -979,8 +983,8 @@ impl Planner {
                 // Check for AND/OR first (compound conditions)
                 match op {
                     BinaryOp::And => {
-                        let left_result = self.check_zone_map_for_predicate(left);
-                        let right_result = self.check_zone_map_for_predicate(right);
+                        let left_result = self.check_zone_map_for_predicate(left, input);
+                        let right_result = self.check_zone_map_for_predicate(right, input);
 
                         return match (left_result, right_result) {
                             // If either side definitely won't match, the AND won't match
@@ -992,8 +996,8 @@ impl Planner {
                         };
                     }
                     BinaryOp::Or => {
-                        let left_result = self.check_zone_map_for_predicate(left);
-                        let right_result = self.check_zone_map_for_predicate(right);
+                        let left_result = self.check_zone_map_for_predicate(left, input);
+                        let right_result = self.check_zone_map_for_predicate(right, input);
 
                         return match (left_result, right_result) {
                             // Both sides definitely won't match
@@ -1008,9 +1012,9 @@ impl Planner {
                 }
 
                 // Simple property comparison: n.property op value
-                let (property, compare_op, value) = match (left.as_ref(), right.as_ref()) {
+                let (variable, property, compare_op, value) = match (left.as_ref(), right.as_ref()) {
                     (
-                        LogicalExpression::Property { property, .. },
+                        LogicalExpression::Property { variable, property },
                         LogicalExpression::Literal(val),
                     ) => {
                         let cmp = match op {
@@ -1022,11 +1026,11 @@ impl Planner {
                             BinaryOp::Ge => CompareOp::Ge,
                             _ => return None,
                         };
-                        (property.clone(), cmp, val.clone())
+                        (variable, property.clone(), cmp, val.clone())
                     }
                     (
                         LogicalExpression::Literal(val),
-                        LogicalExpression::Property { property, .. },
+                        LogicalExpression::Property { variable, property },
                     ) => {
                         // Flip comparison for reversed operands
                         let cmp = match op {
@@ -1038,10 +1042,16 @@ impl Planner {
                             BinaryOp::Ge => CompareOp::Le,
                             _ => return None,
                         };
-                        (property.clone(), cmp, val.clone())
+                        (variable, property.clone(), cmp, val.clone())
                     }
                     _ => return None,
                 };
+
+                // The summaries describe node properties: they say nothing about an
+                // edge (or any other) variable that happens to use the same key
+                if !Self::binds_node_variable(input, variable) {
+                    return None;
+                }
 
                 // Check zone map for node properties
                 let might_match =
@@ -1052,6 +1062,32 @@ impl Planner {
             }
 
             _ => None,
+        }
+    }
+
+    /// Is `variable` bound to a node by the given operator tree?
+    fn binds_node_variable(op: &LogicalOperator, variable: &str) -> bool {
+        match op {
+            LogicalOperator::NodeScan(scan) => {
+                scan.variable == variable
+                    || scan
+                        .input
+                        .as_deref()
+                        .is_some_and(|i| Self::binds_node_variable(i, variable))
+            }
+            LogicalOperator::Expand(expand) => {
+                expand.to_variable == variable || Self::binds_node_variable(&expand.input, variable)
+            }
+            LogicalOperator::Filter(f) => Self::binds_node_variable(&f.input, variable),
+            LogicalOperator::Limit(l) => Self::binds_node_variable(&l.input, variable),
+            LogicalOperator::Skip(s) => Self::binds_node_variable(&s.input, variable),
+            LogicalOperator::Sort(s) => Self::binds_node_variable(&s.input, variable),
+            LogicalOperator::Distinct(d) => Self::binds_node_variable(&d.input, variable),
+            LogicalOperator::Join(j) => {
+                Self::binds_node_variable(&j.left, variable)
+                    || Self::binds_node_variable(&j.right, variable)
+            }
+            _ => false,
         }
     }
 
